@@ -310,25 +310,33 @@ func (e *env) execCase(ci *caseIn) (verdict, []obs, []core.Violation) {
 		panic("c17 harness: cannot write case files: " + herr.Error())
 	}
 	v := reference(ci.Archive, ci.ArchName, ci.Prov, ci.NoProv, ci.RingBytes)
+	// per entry point the first finding (judge lists the verdict mismatch before
+	// the corollaries) names the class; the others are appended to its text
 	var all []finding
 	var os_ []obs
+	byKind := map[string][]finding{}
+	var kinds []string
 	for _, en := range entries {
 		o := e.runEntry(en, ci, archPath, ringPath)
 		os_ = append(os_, o)
-		all = append(all, judge(ci, v, en, o)...)
+		fs := judge(ci, v, en, o)
+		if len(fs) == 0 {
+			continue
+		}
+		pf := fs[0]
+		for _, x := range fs[1:] {
+			pf.What += "; also " + x.Kind + ": " + x.What
+		}
+		all = append(all, pf)
+		if _, ok := byKind[pf.Kind]; !ok {
+			kinds = append(kinds, pf.Kind)
+		}
+		byKind[pf.Kind] = append(byKind[pf.Kind], pf)
 	}
+	sort.Strings(kinds)
 	if len(all) == 0 {
 		return v, os_, nil
 	}
-	byKind := map[string][]finding{}
-	var kinds []string
-	for _, f := range all {
-		if _, ok := byKind[f.Kind]; !ok {
-			kinds = append(kinds, f.Kind)
-		}
-		byKind[f.Kind] = append(byKind[f.Kind], f)
-	}
-	sort.Strings(kinds)
 	rd, _ := json.Marshal(ci)
 	var vs []core.Violation
 	for _, k := range kinds {
@@ -342,8 +350,8 @@ func (e *env) execCase(ci *caseIn) (verdict, []obs, []core.Violation) {
 			enKey = "all-entry-points"
 		}
 		key := ci.Family + "/" + k
-		if ci.Region != "" {
-			key += "/" + ci.Region
+		if r := keyRegion(ci, v); r != "" {
+			key += "/" + r
 		}
 		key += "/" + enKey
 		what := fmt.Sprintf("%s: %s [case: %s; pair %s; keyring %s; archive %q %d bytes; reference: %s]",
@@ -353,10 +361,33 @@ func (e *env) execCase(ci *caseIn) (verdict, []obs, []core.Violation) {
 	return v, os_, vs
 }
 
+// keyRegion is the part of a finding key that says where the deviation sits:
+// the file region for positional mutations; for signed variants the name key
+// when the name is the deviation, else the listed value.
+func keyRegion(ci *caseIn, v verdict) string {
+	if ci.Family != "signed-variant" {
+		return ci.Region
+	}
+	name, value, _ := strings.Cut(ci.Region, ",")
+	if name != "name=base" {
+		return name
+	}
+	return value
+}
+
 func replay(c *core.Ctx, data json.RawMessage) []core.Violation {
 	var ci caseIn
 	if err := json.Unmarshal(data, &ci); err != nil {
 		return nil
+	}
+	if ci.Family == "fixture" {
+		root, err := os.MkdirTemp("/var/tmp", "c17-")
+		if err != nil {
+			return nil
+		}
+		defer os.RemoveAll(root)
+		f, err := buildFixture(root)
+		return fixtureViolations(root, f, err)
 	}
 	root := ci.Root
 	if root == "" || !strings.HasPrefix(root, "/var/tmp/") {
@@ -451,18 +482,17 @@ func run(c *core.Ctx) {
 	}
 	defer os.RemoveAll(root)
 	f, err := buildFixture(root)
-	if err != nil {
-		// signing an ordinary chart with a generated key failed: that is the
-		// "signed then verified always passes" clause failing at its first step
-		c.NotExhaustive("fixture could not be built: %v", err)
-		c.Violate(prop, "fixture/"+core.SanitizeKey(firstWords(err.Error(), 4)), "cannot save+sign the fixture charts: "+err.Error(), caseIn{Family: "fixture", Desc: err.Error()})
+	if fv := fixtureViolations(root, f, err); len(fv) > 0 {
+		// "a chart signed and then verified with the matching key always passes"
+		// fails at its first step; nothing else can be explored
+		for _, v := range fv {
+			c.Violate(v.Property, v.Key, v.What, caseIn{Family: "fixture", Desc: v.What})
+		}
+		c.NotExhaustive("charts could not be saved and signed as the property describes; exploration skipped")
 		return
 	}
 	e := newEnv(root)
 	x := &explorer{c: c, f: f, e: e}
-	if !x.selfTest() {
-		return
-	}
 	c.Bound("charts", "2 (hx-a-0.1.0: Chart.yaml only; hx-b-1.2.3: Chart.yaml+values.yaml+1 template)")
 	c.Bound("keys", "2 (k0 RSA-2048 with RSA subkey via openpgp.NewEntity; k1 ECDSA P-256), fixed-seed generation")
 	c.Bound("entry_points", strings.Join(entries, ","))
@@ -623,19 +653,27 @@ func (x *explorer) floors(ci *caseIn, v verdict, os_ []obs) {
 	}
 }
 
-func (x *explorer) selfTest() bool {
-	// the reference's message reader must read Helm's own message block the way
-	// the generator intends: exactly one entry, base name -> digest of the archive
-	for _, p := range x.f.pairs {
+// fixtureViolations checks the signing half of the property on the fixture:
+// saving and signing works, and the message Signatory.ClearSign signs lists
+// exactly the archive's base name with the digest of its bytes (read by the
+// reference's own message reader).
+func fixtureViolations(root string, f *fixture, err error) []core.Violation {
+	rd, _ := json.Marshal(caseIn{Family: "fixture"})
+	if err != nil {
+		msg := strings.ReplaceAll(err.Error(), root, "<root>")
+		return []core.Violation{{Property: prop, Key: core.SanitizeKey("fixture/cannot-save-and-sign/" + firstWords(msg, 3)),
+			What: "saving and signing an ordinary chart with a generated key fails: " + msg, Replay: rd}}
+	}
+	var vs []core.Violation
+	for _, p := range f.pairs {
 		files, ok := parseFiles(p.Text)
 		if !ok || len(files) != 1 || len(files[p.Base]) != 1 || files[p.Base][0] != digestOf(p.Archive) {
-			x.c.Violate(prop, "clearsign/message-does-not-list-archive", fmt.Sprintf("Signatory.ClearSign(%s) produced a message whose files section is %v; expected exactly {%s: %s}",
-				p.Base, files, p.Base, digestOf(p.Archive)), caseIn{Family: "fixture", Desc: "message block", Prov: p.RealProv, Archive: p.Archive, ArchName: p.Base})
-			x.c.NotExhaustive("message block of ClearSign not understood by the reference reader; exploration skipped")
-			return false
+			vs = append(vs, core.Violation{Property: prop, Key: "clearsign/message-does-not-list-archive-under-its-file-name",
+				What: fmt.Sprintf("Signatory.ClearSign(<dir>/%s) signs a message whose files section is %v; the property needs exactly {%s: %s}", p.Base, files, p.Base, digestOf(p.Archive)), Replay: rd})
+			break
 		}
 	}
-	return true
+	return vs
 }
 
 // structured enumerates every family except the per-position ones.
